@@ -1,14 +1,21 @@
 """C07 — stream framing is independent of TCP segmentation and bounds packet size.
 
-Spec: spec/Framing (Framing.tla: positions model of stream/buffer/scan loop; MC over every sequence of <= 3
+Spec: spec/Framing (Framing.tla: positions model of stream/buffer/scan loop, read timeouts that change nothing,
+connections that die anywhere in their stream and are followed by a fresh one; MC over every sequence of <= 3
 lengths from {0,3,4,5,6,7} with maxLen 6 and every partition into reads <= 5 bytes, and 4-packet streams around
-maxLen 9 with coalescing reads; Trace_Framing).
-Binding B1 with a directed peer: the harness feeds the real tcp server recv loop (transport.TarsServer) and the
-real client recv loop (transport.TarsClient), both with the real protocol.TarsRequest as ParsePackage, with
-scripted streams cut into scripted chunks (single bytes, inside every header, all at once, packet-aligned,
-random), waiting via the read hook until each chunk was consumed.  Hooks (build tag verif) report every read
-size, every packet handed to the protocol layer (length, payload id), parse errors; the harness observes that an
-illegal length closes that connection and only that one.  TLC validates every trace against Framing.
+maxLen 9 with coalescing reads, two successive connections, an illegal header followed by junk or ending the
+stream; Trace_Framing).
+Binding B1 with a directed peer: the harness feeds the real tcp server recv loop (transport.TarsServer; framing
+asked of protocol.TarsRequest or of tars.Protocol.ParsePackage; ReadTimeout 0 or 12 ms) and the real client recv
+loop (transport.TarsClient with protocol.TarsRequest, or a real tars.ServantProxy on a direct endpoint so that
+the transport asks AdapterProxy.ParsePackage; ReadTimeout 0 or 12 ms) with scripted streams cut into scripted
+chunks (single bytes, inside every header, header | body, next to every boundary, all at once, packet-aligned,
+random), waiting via the read hook until each chunk was consumed; between chunks it may stay silent for longer
+than the read timeout (Pause), and it may close the connection anywhere in the stream (Cut) and feed the next
+connection of the same receiver (the client reconnects on its next Send / one-way call).  Hooks (build tag verif)
+report every read size, every packet handed to the protocol layer (length, payload id), parse errors; the harness
+observes that an illegal length closes that connection and only that one.  TLC validates every trace against
+Framing.
 """
 import json
 import os
@@ -50,16 +57,18 @@ def run(ctx):
 
     def drive(i):
         out = os.path.join(ctx.work, "fr%d.ndjson" % i)
-        args = [exe, "framing-trace", "-seed", str(ctx.seed * 100 + i), "-n", str(per), "-out", out]
+        args = [exe, "framing-trace", "-seed", str(ctx.seed * 100 + i), "-n", str(per), "-out", out, "-dk", str(i), "-dn", str(nproc)]
         if not ctx.quick:
             args.append("-big")
         rc, so, se = sh(args, timeout=3000)
-        return out, [int(x) for x in so.split()[-7:]]
+        if rc != 0:
+            raise Inconclusive("the framing driver failed (exit %s): %s" % (rc, se[-600:]))
+        return out, [int(x) for x in so.split()[-8:]]
 
     with ThreadPoolExecutor(max_workers=nproc) as ex:
         outs = list(ex.map(drive, range(nproc)))
-    hooks = [sum(o[1][k] for o in outs) for k in range(7)]
-    if min(hooks[2:7]) == 0:
+    hooks = [sum(o[1][k] for o in outs) for k in range(8)]
+    if min(hooks[3:8]) == 0:
         raise Inconclusive("hook self-test: some transport hook never fired: %s" % hooks)
     cfg = open(os.path.join(VERIF, "spec", SPEC, "Trace.cfg")).read()
     alltr = []
@@ -77,10 +86,11 @@ def run(ctx):
     def val(part):
         return tracecheck.validate(ctx, SPEC, "Trace_Framing", cfg, part[1], name="trace-%d" % part[0], reset={"e": "End"})
 
-    k = 8
+    k = 4
     parts = [alltr[i::k] for i in range(k)]
     with ThreadPoolExecutor(max_workers=k) as ex:
         results = list(ex.map(val, list(enumerate(parts))))
+    rejected = []
     for (acc, fails, st), part in zip(results, parts):
         states += st["states"]
         trans += st["transitions"]
@@ -88,9 +98,29 @@ def run(ctx):
             t = part[f["index"]]
             side = t[0].get("side")
             ev = f["event"]
-            ctx.violate("C07:%s:trace-rejected:%s" % (side, ev.get("e")),
-                        "%s receive loop: stream %s (maxlen %s) was not framed as sent; first event the model cannot follow: %s"
-                        % (side, t[0].get("lens"), t[0].get("maxlen"), json.dumps(ev)), {"trace": t, "offset": f["offset"]})
+            # the connection of the run in which the model stops, and what had happened on it
+            upto = t[:f["offset"] + 1]
+            cur = max(i for i, e in enumerate(upto) if e["e"] == "Stream") if any(e["e"] == "Stream" for e in upto) else 0
+            hd = t[cur]
+            qual = []
+            if hd.get("via") in ("proxy", "tars"):
+                qual.append("via-" + hd["via"])         # framing asked of AdapterProxy.ParsePackage / tars.Protocol.ParsePackage
+            if any(e["e"] == "Pause" for e in upto[cur:]):
+                qual.append("after-read-timeout")       # the peer had been silent for longer than the receiver's ReadTimeout
+            if hd.get("conn", 1) > 1:
+                qual.append("after-reconnect")          # not the first connection of this receiver
+            rejected.append((side, ev.get("e"), qual,
+                             "%s receive loop (%s, read timeout %s ms, connection %s of the run, case %s): stream %s (maxlen %s) was not framed as sent; "
+                             "first event the model cannot follow: %s; events before it: %s"
+                             % (side, hd.get("via"), hd.get("rt"), hd.get("conn"), hd.get("kind"), hd.get("lens"), hd.get("maxlen"), json.dumps(ev),
+                                json.dumps(f.get("prefix"))), {"trace": t, "offset": f["offset"]}))
+    # a circumstance is named in the signature when every rejected run of that side shares it (the failure needs it, as far as this run
+    # can tell): the signature of a failure that needs none stays C07:<side>:trace-rejected:<event>
+    for side in ("server", "client"):
+        mine = [r for r in rejected if r[0] == side]
+        common = [q for q in ("via-proxy", "via-tars", "after-read-timeout", "after-reconnect") if mine and all(q in r[2] for r in mine)]
+        for _, evn, _, what, replay in mine:
+            ctx.violate(":".join(["C07", side, "trace-rejected", str(evn)] + common), what, replay)
     # binding self-test
     base = next((t for t in alltr if sum(1 for e in t if e["e"] == "Pkg") >= 2), None)
     if base is None:
@@ -101,17 +131,66 @@ def run(ctx):
     m2 = [e for i, e in enumerate(base) if i != pk[0]]
     m3 = [dict(e) for e in base]
     m3[pk[0]]["uniform"] = False
+    muts = [("pkg-len+1", m1), ("pkg-dropped", m2), ("payload-mixed", m3)]
+
+    def directed(kind):
+        return next((t for t in alltr if t[0].get("kind") == kind), None)
+
+    # the partial packet is gone after a read timeout: the rest of it is taken for a header (a protocol error right after the pause)
+    b = directed("pause-in-payload")
+    if b:
+        i = next(i for i, e in enumerate(b) if e["e"] == "Pause")
+        muts.append(("error-after-read-timeout", b[:i + 1] + [{"e": "ParseError"}] + b[i + 1:]))
+    # bytes of the dead connection in front of the new connection's stream: its first packet is not the one that was sent
+    b = directed("cut-in-payload")
+    if b:
+        j = max(i for i, e in enumerate(b) if e["e"] == "Stream")
+        i = next(i for i, e in enumerate(b) if i > j and e["e"] == "Pkg")
+        m = [dict(e) for e in b]
+        m[i]["len"], m[i]["uniform"] = 16, False
+        muts.append(("carried-over-reconnect", m))
+        muts.append(("cut-not-noticed", [e for e in b if e["e"] != "Cut"]))
+    # an illegal prefix that is complete in the buffer is only reported when more bytes arrive
+    b = directed("bad-prefix-alone-then-junk/0")
+    if b:
+        i = next(i for i, e in enumerate(b) if e["e"] == "ParseError")
+        muts.append(("error-only-after-more-bytes", b[:i] + [{"e": "Read", "n": 6}] + b[i:]))
+    # a body-less packet that ends the stream is never handed out
+    b = directed("min-packet-last-alone")
+    if b:
+        i = max(i for i, e in enumerate(b) if e["e"] == "Pkg")
+        muts.append(("min-packet-withheld", b[:i] + b[i + 1:]))
+    if len(muts) < 6:
+        raise Inconclusive("directed runs missing from the corpus: only %d of 8 corruptions could be built" % len(muts))
     selftest = {}
-    for name, t in (("pkg-len+1", m1), ("pkg-dropped", m2), ("payload-mixed", m3)):
-        acc, fails, _ = tracecheck.validate(ctx, SPEC, "Trace_Framing", cfg, [t], name="selftest-" + name, reset={"e": "End"})
+    with ThreadPoolExecutor(max_workers=4) as ex:
+        verdicts = list(ex.map(lambda m: tracecheck.validate(ctx, SPEC, "Trace_Framing", cfg, [m[1]], name="selftest-" + m[0].replace("+", "p"),
+                                                             reset={"e": "End"}), muts))
+    for (name, t), (acc, fails, _) in zip(muts, verdicts):
         selftest[name] = "rejected" if fails else "ACCEPTED"
         if not fails:
             raise Inconclusive("binding self-test failed: corrupted trace (%s) accepted" % name)
     sides = {"server": 0, "client": 0}
-    bad = 0
+    vias, kinds = {}, {}
+    bad = conns = 0
+    pauses = {"buffered": 0, "at-boundary": 0}
+    cuts = {"inside-packet": 0, "at-boundary": 0}
     for t in alltr:
         sides[t[0]["side"]] += 1
+        v = "%s/%s%s" % (t[0]["side"], t[0]["via"], "/read-timeout" if t[0]["rt"] else "")
+        vias[v] = vias.get(v, 0) + 1
+        kd = t[0]["kind"].split("/")[0]
+        kinds[kd] = kinds.get(kd, 0) + 1
         bad += any(e["e"] == "ParseError" for e in t)
+        for e in t:
+            if e["e"] == "Stream":
+                conns += 1
+            elif e["e"] == "Pause":
+                pauses["buffered" if e["buffered"] else "at-boundary"] += 1
+            elif e["e"] == "Cut":
+                cuts["inside-packet" if e["inside"] else "at-boundary"] += 1
+    if min(pauses["buffered"], cuts["inside-packet"], vias.get("client/proxy", 0) + vias.get("client/proxy/read-timeout", 0)) == 0:
+        raise Inconclusive("vacuous: no pause inside a packet / no connection cut inside a packet / no run through the servant proxy: %s %s %s" % (pauses, cuts, vias))
     ctx.coverage = {
         "states": sum(v["distinct"] for v in mc.values()) + states,
         "transitions": sum(v["generated"] for v in mc.values()) + trans,
@@ -119,10 +198,15 @@ def run(ctx):
         "samples": [alltr[0][:25]],
         "evaluations": len(alltr),
         "distinct_nontrivial": len({json.dumps(t) for t in alltr}),
-        "rule": "streams of 1-5 packets with lengths around 4, the 4096-byte read buffer and the configured maximum (16 .. 10 MB), "
-                "illegal lengths 0/1/3/max+1, cut into chunks (single bytes, inside headers, all at once, packet aligned, random); "
+        "rule": "runs of 1-3 successive connections of one receiver (server: framing by protocol.TarsRequest or by tars.Protocol.ParsePackage; client: "
+                "transport.TarsClient with TarsRequest, or a real ServantProxy whose AdapterProxy.ParsePackage the transport asks), without / with a "
+                "read timeout; per connection a stream of 1-5 packets with lengths around 4, the 4096-byte read buffer and the configured maximum "
+                "(16 .. 10 MB), illegal lengths 0/1/3/max+1 followed by 6 or 0 bytes, cut into chunks (single bytes, inside headers, header | body, "
+                "next to every boundary, all at once, packet aligned, random), with silences longer than the read timeout between chunks and "
+                "connections cut at / next to / inside packets; plus a fixed list of directed boundary cases on each of the four receivers; "
                 "distinct = distinct event traces",
-        "model_checking": mc, "runs_dropped_for_harness_timeout": dropped, "by_side": sides, "traces_with_protocol_error": bad,
-        "hook_hits": dict(zip(["scenarios", "-", "tcp.recv.read", "tcp.handleConn", "client.recv.read", "client.recv.pkg", "parseError"], hooks)),
+        "model_checking": mc, "runs_dropped_for_harness_timeout": dropped, "by_side": sides, "by_receiver": vias, "by_case": kinds,
+        "connections": conns, "pauses_longer_than_read_timeout": pauses, "connections_cut": cuts, "traces_with_protocol_error": bad,
+        "hook_hits": dict(zip(["directed", "scenarios", "-", "tcp.recv.read", "tcp.handleConn", "client.recv.read", "client.recv.pkg", "parseError"], hooks)),
         "selftest_corrupted_traces": selftest, "exhaustive": False,
     }
